@@ -862,6 +862,23 @@ fn multis(c: &Case, u1: &Uni, u2: &Uni, l: &Ledger) -> Vec<Multi> {
                 expect: Expect::MustFail,
             });
         }
+        // ... and with the foreign position's OWN tick arrays as well (liquidity instructions): position, token account and arrays then
+        // agree with each other and only the pool the instruction names (whose mints and vaults are used) does not own them
+        let ta_slots: Vec<(usize, i32)> = c.slots.iter().enumerate().filter_map(|(k, (_, r))| if let Role::TickArray(_, st) = r { Some((k, *st)) } else { None }).collect();
+        if !ta_slots.is_empty() {
+            let mut crossed = |pool: &crate::world::PoolRef, o: &PosRef, what: String| {
+                let mut repl = vec![(ip, o.addr), (it, o.token_account)];
+                for (k, st) in &ta_slots {
+                    repl.push((*k, pool.tick_array(*st)));
+                }
+                repl.retain(|(k, key)| c.ix.accounts[*k].pubkey != *key);
+                out.push(Multi { repl, what, expect: Expect::MustFail });
+            };
+            crossed(&u2.pools[p], &u2.pos[p][i], "position + its token account + its tick arrays of the U2 counterpart".into());
+            for q in (0..u1.pools.len()).filter(|q| *q != p) {
+                crossed(&u1.pools[q], &u1.pos[q][i], format!("position {i} + its token account + its tick arrays of U1 sibling pool {}", POOL_NAMES[q]));
+            }
+        }
         // the same with positions that were never funded: a check that is only reached once a position holds liquidity is not a check
         for (u, uname) in [(u1, "U1"), (u2, "U2")] {
             for q in 0..u.pools.len() {
